@@ -118,6 +118,19 @@ Theorem c20_list_cancel_safe : forall chans evs,
 Proof. exact list_cancel_safe. Qed.
 Print Assumptions c20_list_cancel_safe.
 
+(* Union or error: when the caller does not cancel and the List channel has been closed, the consumer has received
+   exactly what every shard streamed up to and including its first failure: the union when every per-shard stream
+   ended with EOF, and an error item when some stream failed -- with whatever status, after however many items. *)
+Theorem c20_list_union_or_error : forall chans evs,
+  no_cancel evs -> In LClosed (list_run true chans evs) ->
+  Permutation (concat (map cut chans)) (litems (list_run true chans evs)) /\
+  (Forall (fun ch => Forall (fun x => is_err x = false) ch) chans ->
+     Permutation (concat chans) (litems (list_run true chans evs))) /\
+  ((exists ch x, In ch chans /\ In x ch /\ is_err x = true) ->
+     exists y, In y (litems (list_run true chans evs)) /\ is_err y = true).
+Proof. exact list_union_or_error. Qed.
+Print Assumptions c20_list_union_or_error.
+
 (* the code as found: one shard fails, the caller cancels, another shard goroutine sends on the closed channel *)
 Theorem c20_list_cancel_old_refuted :
   exists chans evs, In LPanicked (list_run false chans evs).
